@@ -241,10 +241,10 @@ class Output(BaseOutput):
             has_value = np.full(len(state), False)
             has_value[: len(state)] = state.alive
             for var in self.instance_variables:
-                # values = getattr(state, var)
-                self.nc.variables[var][self.local_record_count, has_value] = getattr(
-                    state, var
-                )[state.alive]
+                # Write the whole row, masked (= fill value) for dead particles
+                self.nc.variables[var][self.local_record_count, : len(state)] = (
+                    np.ma.masked_array(getattr(state, var), mask=~has_value)
+                )
         elif self.layout == "sparse":
             count = len(state)  # Present number of particles
             start = self.local_instance_count
@@ -257,8 +257,12 @@ class Output(BaseOutput):
         if self.lonlat:
             lon, lat = self.xy2ll(state.X, state.Y)
             if self.layout == "dense":
-                self.nc.variables["lon"][self.local_record_count, :] = lon
-                self.nc.variables["lat"][self.local_record_count, :] = lat
+                self.nc.variables["lon"][self.local_record_count, : len(state)] = (
+                    np.ma.masked_array(lon, mask=~has_value)
+                )
+                self.nc.variables["lat"][self.local_record_count, : len(state)] = (
+                    np.ma.masked_array(lat, mask=~has_value)
+                )
             elif self.layout == "sparse":
                 self.nc.variables["lon"][start:end] = lon
                 self.nc.variables["lat"][start:end] = lat
